@@ -85,8 +85,34 @@ def r_proj_inversion(cx):
                             caps.append(_root(f, pl["l"]))
                     swap = (g, caps, bb)
     if swap is None:
-        cx.ob("R-PROJ-INVERSION", "swap/closure", False,
-              "anchor-missing: no closure in parse_proj that exchanges omit_fwd and omit_inv", where)
+        # the same exchange written inline (an explicit loop over the elements instead of an iterator chain)
+        guards = [(succ, lit) for (succ, lhs, lit) in str_eq_guards(f) if lit in ("omit_fwd", "omit_inv")]
+        if {lit for _, lit in guards} != {"omit_fwd", "omit_inv"}:
+            cx.ob("R-PROJ-INVERSION", "swap/closure", False,
+                  "anchor-missing: nothing in parse_proj exchanges omit_fwd and omit_inv", where)
+            return
+        fl = set()
+        for succ, lit in guards:
+            b, seen = succ, set()
+            sw = None
+            while b is not None and b not in seen:
+                seen.add(b)
+                t = f.term(b)
+                if t["k"] == "switch":
+                    sw = b
+                    break
+                b = t.get("target") if t["k"] in ("goto", "call", "drop", "assert") else None
+            pl = mir.op_place(f.term(sw)["discr"]) if sw is not None else None
+            root = _root(f, pl["l"]) if pl is not None else None
+            fl.add(root if root is not None and str(f.local_ty(root)) == "bool" else None)
+        ok = len(fl) == 1 and None not in fl
+        cx.ob("R-PROJ-INVERSION", "swap/conditional", ok,
+              "the exchange of omit_fwd and omit_inv depends on the flag `%s`" % f.lname(list(fl)[0]) if ok else
+              "parse_proj exchanges omit_fwd and omit_inv whether or not the pipeline is inverted: for an ordinary pipeline "
+              "(or a single step) the step is then skipped in the opposite direction of what the PROJ string asks for", where)
+        if not ok:
+            return
+        _proj_inversion_rest(cx, f, list(fl)[0], where)
         return
     g, caps, cbb = swap
     # inside the closure: the exchange happens only on a branch that tests a captured bool
@@ -119,7 +145,11 @@ def r_proj_inversion(cx):
           cx.where(g.d["span"]))
     if not flags:
         return
-    flag = flags[0]
+    _proj_inversion_rest(cx, f, flags[0], where)
+
+
+def _proj_inversion_rest(cx, f, flag, where):
+    flags = [flag]
     # (2) the same flag decides where a translated step is put (front: reversed order / back)
     inserts = [bb for bb, t in f.calls() if (f.callee(t) or "").endswith("Vec::<T, A>::insert") and
                len(f.arg_terms(bb)) > 1 and f.arg_terms(bb)[1][0] == "const" and f.arg_terms(bb)[1][2] == 0]
@@ -236,12 +266,54 @@ def r_proj_refusals(cx):
     f = cx.f.fn(PARSE)
     errs = [bb for bb, i, s in f.all_stmts() if s["k"] == "assign" and s["rv"]["k"] == "agg" and
             s["rv"].get("adt") == "Error" and s["rv"].get("vname") == "Unsupported"]
-    init_tests = [bb for bb, t in f.calls() if (f.callee(t) or "").endswith("::starts_with") and
-                  K._const_key(f.arg_terms(bb)[1]) == "init="]
-    ok_init = any(e in f.reach_from([f.term(b)["target"]]) for b in init_tests for e in errs if f.term(b).get("target") is not None)
-    cx.ob("R-PROJ-REFUSALS", "init", bool(init_tests) and ok_init,
-          "an element starting with `init=` leads to an Unsupported error" if init_tests and ok_init else
+    def _init_tests(g):
+        return [bb for bb, t in g.calls() if (g.callee(t) or "").endswith("::starts_with") and
+                len(g.arg_terms(bb)) > 1 and K._const_key(g.arg_terms(bb)[1]) == "init="]
+    init_tests = _init_tests(f)
+    # the same test written as a closure handed to an iterator adaptor: `elements.iter().any(|x| x.starts_with("init="))`
+    closure_sites = []
+    for bb, t in f.calls():
+        for a in f.arg_terms(bb):
+            if a[0] == "agg" and isinstance(a[1], tuple) and a[1][0] == "closure" and cx.f.has_fn(a[1][1]) and _init_tests(cx.f.fn(a[1][1])):
+                closure_sites.append((bb, (f.callee(t) or "").rsplit("::", 1)[-1], f.arg_terms(bb)[0]))
+    ok_init = any(e in f.reach_from([f.term(b)["target"]]) for b in init_tests for e in errs if f.term(b).get("target") is not None) or \
+        any(e in f.reach_from([f.term(b)["target"]]) for b, _, _ in closure_sites for e in errs if f.term(b).get("target") is not None)
+    have = bool(init_tests or closure_sites)
+    cx.ob("R-PROJ-REFUSALS", "init", have and ok_init,
+          "an element starting with `init=` leads to an Unsupported error" if have and ok_init else
           "parse_proj no longer refuses `init=` clauses with an error", cx.where(f.d["span"]))
+    # ... and every element of the step is tested, wherever the init clause stands: the loop doing the test is left
+    # only when the elements are exhausted or by an error return - not by a `break` on meeting `proj=` first
+    tidy = [b for b, t in f.calls() if (f.callee(t) or "") == "token::tidy_proj"]
+    everywhere, why = False, "the `init=` test is not applied to the elements of a step in a way the analysis can follow"
+    for b in init_tests:
+        lp = f.innermost_loop(b)
+        if lp is None:
+            continue
+        early = []
+        for (x, y) in lp.exits:
+            if x == lp.header:
+                continue        # the iterator is exhausted
+            t = f.term(x)
+            if t["k"] == "switch" and _is_next_switch(f, x):
+                continue
+            if tidy and not any(tb in f.reach_from([y]) for tb in tidy):
+                continue        # an error return
+            early.append(x)
+        if not early:
+            everywhere = True
+        else:
+            why = "the loop testing the elements of a step for `init=` is left early (on meeting `proj=`): an init clause " \
+                  "written after the proj= element is never seen and is passed on to the operator instead of being refused"
+    for b, meth, recv in closure_sites:
+        bad = _mentions(recv, lambda x: x[0] == "call" and isinstance(x[1], str) and
+                        x[1].rsplit("::", 1)[-1] in ("skip", "take", "take_while", "skip_while", "step_by", "nth", "first", "last"))
+        if meth in ("any", "find", "position", "all", "filter", "find_map") and not bad:
+            everywhere = True
+        else:
+            why = "the `init=` test is applied to a part of the elements only (%s)" % meth
+    cx.ob("R-PROJ-REFUSALS", "init-everywhere", everywhere,
+          "every element of a step is tested for `init=`" if everywhere else "parse_proj: " + why, cx.where(f.d["span"]))
     pipes = [(succ, lit) for (succ, lhs, lit) in str_eq_guards(f) if lit == "pipeline"]
     ok_nested = False
     for succ, _ in pipes:
@@ -302,3 +374,12 @@ def r_remove_pair(cx):
         cx.ob("R-REMOVE-PAIR", "tidy_proj/a-rf", False, "anchor-missing: tidy_proj does not remove two elements by saved indices",
               cx.where(f.d["span"]))
     cx.count("R-REMOVE-PAIR", "pairs", n)
+
+
+def _is_next_switch(f, b):
+    """the switch on the discriminant of an `Iterator::next()` result (None leaves the loop)"""
+    t = f.term(b)
+    c = f.operand(t["discr"], f.end_point(b))
+    c = mir.strip_refs(c)
+    return c[0] == "discr" and mir.strip_refs(c[1])[0] == "call" and isinstance(mir.strip_refs(c[1])[1], str) and \
+        mir.strip_refs(c[1])[1].rsplit("::", 1)[-1] in ("next", "next_back")
